@@ -764,6 +764,14 @@ pub fn seal_with(pre: &Snap, action: Option<ProposerAction>, lenient: bool) -> (
             tr.skipped.push("withdrawal of nothing or of more liquidity than the pool records");
             continue;
         }
+        // C16 demands that the built-in pools keep reserves after every block: a batch redeeming all of a built-in
+        // pool's liquidity cannot be honoured (since fix D19 the code leaves it unsettled; before, the next sealing
+        // panicked - the evidence for that fix is C09's and C16's, not this line)
+        let builtin = [PoolKey::new(Denom::Mel, Denom::Sym), PoolKey::new(Denom::Mel, Denom::Erg), PoolKey::new(Denom::Erg, Denom::Sym)];
+        if t_total == p.liqs && builtin.contains(k) {
+            tr.skipped.push("withdrawal that would empty a built-in pool");
+            continue;
+        }
         let (pl, pr) = pool_withdraw(&mut p, t_total);
         s.pools.insert(*k, p);
         for t in reqs.iter() {
